@@ -29,6 +29,10 @@ pub struct NameDec {
     /// ends (the name being read, or the run reached through the previous pointer): the target is
     /// then a *prior* occurrence in the sense of RFC 1035 4.1.4, not a place inside the run itself
     pub prior_only: bool,
+    /// true iff some pointer followed lands directly on another pointer (a jump that adds no
+    /// label); a name without such jumps follows at most as many pointers as it has labels + 1,
+    /// so a decoder that caps the number of jumps at 128 or more still accepts it
+    pub ptr_to_ptr: bool,
     /// offsets (in the message) at which each label of the name starts, in order
     pub label_offsets: Vec<usize>,
     /// every pointer followed: (position of the pointer, its target), in order
@@ -44,6 +48,16 @@ impl NameDec {
     }
 }
 
+/// Walkable, and every question / owner name is reached through at most 16 pointer jumps, each to
+/// a prior occurrence: messages any conforming decoder accepts (a decoder may cap the number of
+/// jumps, but not below what ordinary compression produces).
+pub fn must_be_accepted(msg: &[u8]) -> bool {
+    match walk(msg) {
+        Err(_) => false,
+        Ok(w) => w.questions.iter().map(|q| &q.name).chain(w.records.iter().map(|r| &r.name)).all(|n| n.ptrs <= 16 && n.backward_only && n.prior_only),
+    }
+}
+
 pub fn decode_name(msg: &[u8], off: usize) -> Result<NameDec, NameErr> {
     let mut pos = off;
     let mut labels: Vec<B> = Vec::new();
@@ -53,6 +67,7 @@ pub fn decode_name(msg: &[u8], off: usize) -> Result<NameDec, NameErr> {
     let mut ptrs = 0usize;
     let mut backward_only = true;
     let mut prior_only = true;
+    let mut ptr_to_ptr = false;
     let mut run_start = off;
     let mut visited: Vec<usize> = Vec::new();
     let mut pointers: Vec<(usize, usize)> = Vec::new();
@@ -104,6 +119,9 @@ pub fn decode_name(msg: &[u8], off: usize) -> Result<NameDec, NameErr> {
                 if target >= run_start {
                     prior_only = false;
                 }
+                if msg[target] & 0xc0 == 0xc0 {
+                    ptr_to_ptr = true;
+                }
                 run_start = target;
                 ptrs += 1;
                 pointers.push((pos, target));
@@ -115,7 +133,7 @@ pub fn decode_name(msg: &[u8], off: usize) -> Result<NameDec, NameErr> {
     if inplace == usize::MAX {
         inplace = labels.len();
     }
-    Ok(NameDec { name: RefName(labels), next: next.unwrap(), ptrs, backward_only, prior_only, label_offsets, pointers, inplace })
+    Ok(NameDec { name: RefName(labels), next: next.unwrap(), ptrs, backward_only, prior_only, ptr_to_ptr, label_offsets, pointers, inplace })
 }
 
 #[derive(Debug, Clone)]
